@@ -45,6 +45,11 @@ CHECKS = {
         "Exploration: for every sentence (all token strings up to 4-5 tokens, rendered with generated layout before, between and after tokens; single-character, multi-character and overlapping lexicons; ws-based and comment LAYOUT grammars) every node of the LR build_tree result and of up to 40-200 forest trees + get_first_tree is checked: integer in-bounds positions, terminal value = input slice, ordered non-overlapping siblings, children inside parents, layout_content+value concatenation reproduces the input, and the positions seen by actions (on the fly and via call_actions) equal the tree's.",
         "Trusted: pv/ref_chart.py for sentence selection. Known finding D17 (GLR packed node keeps the span of its first alternative) relaxes only the three span-relation predicates on GLR trees and only when the disagreeing region consists of layout characters. LR and GLR placements of empty nodes are not compared with each other.",
         "DESIGN.md section 6/C08"),
+    "C13": (
+        "differential PBT: sugared grammar vs (a) parglare on an own plain-BNF expansion following the documented equivalences and (b) reference derivations of the expansion evaluated by the documented meaning; metamorphic greedy-vs-non-greedy family with recorded behaviour on an exhaustive corpus",
+        "Exploration: generated rules combining terminals/rules with ? * + , separators (terminal or rule), nested groups and repeated groups, plus the documentation's examples; on every token string up to 4-5 tokens LR must construct iff the expansion does and return the same results/rejection positions, GLR must give the same result sets, tree counts and helper-name-abstracted trees as the expansion, and the sugared language/results must equal the reference derivations of the expansion evaluated as lists / [] / None with separators dropped and groups as anonymous rules. Greedy family (sequences of 2-3 repetitions with ! marks): no non-sentence of the non-greedy form is accepted, every returned tree is a derivation of it, all-but-last-greedy sequences must not return several trees.",
+        "Trusted: expander/evaluator in pv/props/c13.py. Known findings: D15 (greedy implemented as static shift preference: cuts the language / non-maximal single tree) and D16 (helper shared between greedy and non-greedy uses) relax only the greedy completeness/maximality clauses; the exhaustive two-item greedy corpus is pinned to its recorded behaviour so a change of the mechanism is still reported; D1 by its signature.",
+        "DESIGN.md section 6/C13"),
     "C14": (
         "metamorphic PBT (two generated layouts of the same token string must give the same parse / offending-token index) + differential PBT (ws parameter vs equivalent LAYOUT rules)",
         "Exploration: every token string up to 3-4 tokens (sentences, non-sentences, junk) of every generated grammar is rendered with two independently generated layout patterns (whitespace; line and nested block comments under a LAYOUT rule) and parsed by LR and GLR: acceptance, LR result, the set of position-free GLR trees and the index of the offending token must agree; for ws grammars an equivalent LAYOUT rule (4 formulations) must give identical trees, node positions, layout_content and error positions.",
